@@ -4,3 +4,4 @@ pub mod world;
 pub mod migworld;
 pub mod lin;
 pub mod conn;
+pub mod sched;
